@@ -339,6 +339,38 @@ func ruleFlushOrdering(r *Run, rule string, k *storeKind) {
 			}
 		})
 		r.Check(okSnap, rule, "flush:snapshot", site, "iterates the frozen-memtable snapshot", "does not iterate listFrozen()")
+		// a success return that does not go through the loop is taken only when the snapshot is empty
+		early := ""
+		paths, trunc := enumPaths(fa.Blocks[0], walkCfg{MaxVisits: 1, MaxPaths: 4000 * pathScale, Decide: decideOnPath})
+		if trunc {
+			early = "(too many paths)"
+		}
+		for _, pth := range paths {
+			if pth.End != EndReturn || !pth.Feasible() || pathErrClass(pth) == ErrNonNil {
+				continue
+			}
+			through := false
+			for _, b := range pth.Blocks {
+				if b == loop.Header {
+					through = true
+				}
+			}
+			if through {
+				continue
+			}
+			emptyDecided := false
+			for _, d := range pth.Decisions {
+				if x, nonEmpty, ok := nonEmptyCmp(c, d.Cond); ok && strings.Contains(x, "listFrozen(") {
+					if d.Taken != nonEmpty { // the decision says "empty"
+						emptyDecided = true
+					}
+				}
+			}
+			if !emptyDecided {
+				early = w.InstrPos(pth.Ret)
+			}
+		}
+		r.Check(early == "", rule, "flush:early-return", site, "success is reported without entering the flush loop only when nothing is frozen", "the success return at "+early+" is reachable with frozen memtables left unflushed: Flush acknowledges what was never written")
 	}
 	// flushMemtable: registration on every success path, after WriteTo and the closes
 	fo := k.FlushOne
